@@ -160,6 +160,16 @@ def loss_from_answers(meas, answer_fn, metric='L2'):
     return tot
 
 
+def loss_floor(meas, total=1.0):
+    """Numerical floor for loss comparisons: 1e-12 x (loss of the all-zero table + total^2 + 1).  A squared-error loss is only
+    resolved relative to the size of its terms; 1e-12 vs 1e-28 are both 'zero' against answers of magnitude 40."""
+    z = 0.0
+    for m in meas:
+        r = m.y / m.noise
+        z += 0.5 * float(r @ r)
+    return 1e-12 * (z + float(total) ** 2 + 1.0)
+
+
 def model_answer_fn(model):
     def f(proj):
         fac = model.project(tuple(proj))
